@@ -36,6 +36,12 @@ def find_gauss(ctx, R):
             if r.kind == "local" and not r.path and pty.get("k") == "ref" and pty.get("mut") and pointee.get("path") == rd["adt"]:
                 cands.append((bi, t, cb))
     if len(cands) != 1:
+        # a helper that wraps the lambda draw also takes the reader: fall back to the producer of Metadata.q_vectors
+        from .c06 import _by_provenance
+        g = _by_provenance(ctx, "gauss")
+        hits = [c for c in cands if c[2] is g]
+        if g is not None and len(hits) == 1:
+            return hits[0]
         raise RoleLost("gauss: the second callee of sample taking &mut reader (found %d)" % len(cands))
     return cands[0]
 
